@@ -136,6 +136,8 @@ def signature(pid, what, source, case, events, i=0, opts_tag=""):
         opt = ("eol=" + cfg.get("line_endings", "Unix")) if what in ("line_ending", "stray_cr", "no_final_newline", "extra_final_newlines") else ("indent=" + cfg.get("indent_type", "Tabs"))
         return "%s|%s|%s;%s" % (source, what, base, opt)
     if pid == "C07":
+        if not tag and case.get("meta", {}).get("sig"):
+            tag = case["meta"]["sig"]
         return "%s|%s|%s|%s" % (source, what, tag, strip_pos(f.get("msg", "")))
     return "%s|%s|%s" % (source, what, tag)
 
